@@ -33,6 +33,8 @@ pub struct Unit {
     pub kind: &'static str,
     pub start: u64,
     pub count: u64,
+    /// workload parameter (meaning depends on the kind)
+    pub param: i64,
 }
 
 pub struct PropDef {
